@@ -63,8 +63,13 @@ func c03Msg(s *EnumSpec, v []int) *WMsg {
 		lport = "5062"
 	}
 	own := "<sip:127.0.0.1:" + lport + ";lr>"
+	alias := "<sip:proxy.example.com:" + lport + ";lr>"
 	var routes []string
 	switch s.Val(v, "route") {
+	case "own-alias":
+		routes = []string{alias}
+	case "own-alias+next":
+		routes = []string{alias, "<" + hop + ">"}
 	case "own":
 		routes = []string{own}
 	case "own+next":
@@ -97,6 +102,20 @@ func c03Eval(v []int) (string, string, bool) {
 		pm := MsgSpec{Method: "OPTIONS", RURI: "sip:x@foreign.example.net", Vias: []string{"SIP/2.0/UDP 127.0.2.1:5060;branch=z9hG4bKpre"},
 			From: "<sip:nh@nh.example.net>;tag=p", To: "<sip:x@nomatch.example.org>", CallID: "pre", CSeq: "1 OPTIONS"}.Build()
 		w.SendUDP("127.0.2.1:5060", "127.0.0.1:5060", pm.Render())
+	}
+	if s.Val(v, "prelude") == "same-request-other-listener" {
+		// history: the very same request (same Request-URI) was received through the OTHER listener before
+		pm := m.Clone()
+		for i := range pm.Hdrs {
+			if pm.Hdrs[i].Name == "Call-ID" {
+				pm.Hdrs[i].Value = "c03-earlier"
+			}
+		}
+		if s.Val(v, "arrival") == "tcp" {
+			w.SendUDP("127.0.0.8:5060", "127.0.0.1:5060", pm.Render())
+		} else {
+			w.SendTCP(w.Client("c0", "127.0.0.8", "127.0.0.1:5062"), pm.Render())
+		}
 	}
 	w.Observe()
 	lport := 5060
@@ -176,7 +195,7 @@ func c03Eval(v []int) (string, string, bool) {
 func init() {
 	c03Spec = &EnumSpec{
 		Feats: []Feat{
-			{Name: "route", Vals: []string{"none", "own", "own+next", "next", "next+further"}},
+			{Name: "route", Vals: []string{"none", "own", "own+next", "next", "next+further", "own-alias", "own-alias+next"}},
 			{Name: "hophost", Vals: []string{"ip", "name"}},
 			{Name: "hopport", Vals: []string{"absent", "5060", "5070"}},
 			{Name: "hoptransport", Vals: []string{"absent", "udp", "tcp", "TCP", "tls", "sctp", "UDP"}, Quick: 5},
@@ -188,17 +207,20 @@ func init() {
 			{Name: "arrival", Vals: []string{"udp", "tcp"}},
 			{Name: "names", Vals: []string{"list", "single", "anything"}, Quick: 2},
 			{Name: "backends", Vals: []string{"udp+tcp", "none", "one-tcp"}, Quick: 2},
-			{Name: "prelude", Vals: []string{"none", "hop-learned"}},
+			{Name: "prelude", Vals: []string{"none", "hop-learned", "same-request-other-listener"}},
 		},
 		Eval: c03Eval,
 	}
 	s := c03Spec
 	s.Valid = func(v []int) bool {
 		r := s.Val(v, "route")
-		hasNext := r == "own+next" || r == "next" || r == "next+further"
+		hasNext := r == "own+next" || r == "next" || r == "next+further" || r == "own-alias+next"
+		if s.Val(v, "prelude") == "hop-learned" && !hasNext {
+			return false
+		}
 		if !hasNext {
 			// hop features are irrelevant without a next-hop Route entry
-			for _, f := range []string{"hophost", "hopport", "hoptransport", "hoplr", "prelude"} {
+			for _, f := range []string{"hophost", "hopport", "hoptransport", "hoplr"} {
 				if v[s.idx(f)] != 0 {
 					return false
 				}
@@ -221,7 +243,7 @@ func init() {
 		return true
 	}
 	addCheck(&Check{ID: "C03", Level: "exploration",
-		Rule:   "complete product of the decision-table features (Route shape x next-hop URI host/port/transport/lr x To host x static table x Request-URI class x keep-next-hop x arrival transport x service-name list x backends x learning prelude), each case on a fresh world started through the real startProxy; the oracle inspects the set of ALL packets and connection attempts the simulated network saw until quiescence; non-trivial = the request is not simply dropped",
+		Rule:   "complete product of the decision-table features (Route shape x next-hop URI host/port/transport/lr x To host x static table x Request-URI class x keep-next-hop x arrival transport x service-name list x backends x history prelude {none, next hop learned, the same request received earlier through the other listener}), each case on a fresh world started through the real startProxy; the oracle inspects the set of ALL packets and connection attempts the simulated network saw until quiescence; non-trivial = the request is not simply dropped",
 		Assume: []string{"service-name patterns are matched with Go's regexp in both the code and the reference (trusted)", "hosts are IPv4 literals or host-table names (stated domain)"},
 		Run:    func(c *Ctx) { c03Spec.Run(c) },
 		Replay: func(c *Ctx, raw json.RawMessage) string { return c03Spec.Replay(raw) },
